@@ -1,6 +1,6 @@
 (** C28 — the hypotheses of the main theorems hold for a concrete non-trivial history. *)
 From Coq Require Import List ZArith NArith Bool Lia.
-From C33 Require Import C28.Model C28.Spec C28.Defs C28.ProofsSig.
+From C33 Require Import C28.Model C28.Spec C28.Defs C28.Proofs C28.ProofsSig.
 Import ListNotations.
 Open Scope Z_scope.
 
@@ -19,3 +19,15 @@ Example example_history_shape :
   let s := run w_cfg (init w_gen) g_ops in
   map b_id (chain s) = [4%N; 2%N; 1%N] /\ cache s = [(3, 2%N)] /\ index s = [2%N; 1%N].
 Proof. vm_compute. repeat split. Qed.
+
+(** everything together: under both guards the chain satisfies the whole oracle *)
+Theorem chain_clean_partial : forall c g ops,
+  cfg_ok c -> gen_ok g -> hash_ok (ops_txs ops) ->
+  self_signed ops = true -> pool_guard ops = true ->
+  spec_chain c (chain (run c (init g) ops)) = true.
+Proof.
+  intros c g ops Hc Hg Hh Hs Hp. unfold spec_chain.
+  rewrite (C28.Proofs.unique_all c g ops Hc Hg Hh).
+  rewrite (C28.Proofs.checked_all c g ops Hc Hg Hh).
+  rewrite (all_signed_partial c g ops Hg Hs Hp). reflexivity.
+Qed.
